@@ -772,3 +772,25 @@ def first_match(ctx, term):
     for e in rest:
         val = val + "." + e
     return render(strip_iter(src)), filt, val
+
+
+def origin_read(b, op):
+    """follow an operand back through copies of locals to the statement that actually READS memory (a place with a
+    projection): (block, statement index, rendered place) or None"""
+    p = op.get("c") or op.get("m") if isinstance(op, dict) else None
+    hops = 0
+    if p is not None and p["p"]:
+        return None
+    while p is not None and not p["p"] and hops < 16:
+        ds = b.defs.get(p["l"], [])
+        if len(ds) != 1 or ds[0][2] != "stmt" or ds[0][3]["rv"]["r"] != "use":
+            return None
+        o = ds[0][3]["rv"]["o"]
+        q = o.get("c") or o.get("m")
+        if q is None:
+            return None
+        if q["p"]:
+            return (ds[0][0], ds[0][1], render(b.place_term(q)))
+        p = q
+        hops += 1
+    return None
